@@ -918,6 +918,7 @@ class _Exec:
                 self.world.probe("input_reused")
             return self.objs[node["id"]]
         a = node.get("args") or {}
+        files0 = set(self.kernel.open_files())
         if kind == "Input":
             kn = a["keynames"]
             if self.p["cfg"].get("keynames_enum"):
@@ -950,6 +951,12 @@ class _Exec:
         if kind in ("FullscreenWindow", "CursorAwareWindow") and not a.get("hide_cursor", True):
             self.world.probe("hide_cursor_false")
         self.objs[node["id"]] = o
+        made = [f for f in self.kernel.open_files() if f not in files0 and f not in self.trigger_fds]
+        if made:
+            # descriptors a constructor opens are the object's (closed by close(), a finalizer, or never)
+            self.owned.setdefault(node["id"], set()).update(made)
+            self.ever_owned.update(made)
+            self.world.probe("constructor_opened_descriptors")
         return o
 
     def run_ctx(self, node):
